@@ -33,7 +33,8 @@ pub fn fp_accepted(bytes: &[u8], plain: &MessageDecoder, validating: &MessageDec
     })
 }
 
-fn check_msg(lm: &LMsg, k: &Keyed, rep: &mut Report) {
+/// `stride` > 1: faults only at the first 24 bytes, the last 40 bytes and every `stride`-th byte in between.
+fn check_msg(lm: &LMsg, k: &Keyed, stride: usize, rep: &mut Report) {
     rep.eval();
     let replay = || json!({"kind": "message", "msg": cu::show_msg(lm)});
     let msg = match cu::build_msg(lm, Some(k.subject)) {
@@ -94,6 +95,9 @@ fn check_msg(lm: &LMsg, k: &Keyed, rep: &mut Report) {
         }
     };
     for i in 0..n {
+        if stride > 1 && i >= 24 && i + 40 < n && i % stride != 0 {
+            continue;
+        }
         for b in 0..8 {
             m[i] ^= 1 << b;
             probe(&m, "single-bit", i, rep);
@@ -128,7 +132,7 @@ pub fn run(ctx: &RunCtx) -> i32 {
         for t in &tails {
             let mut attrs = vec![a.clone()];
             attrs.extend(t.clone());
-            check_msg(&menu::lmsg(1, 2, menu::RFC5769_TID, attrs), &kk, &mut r);
+            check_msg(&menu::lmsg(1, 2, menu::RFC5769_TID, attrs), &kk, 1, &mut r);
         }
         r.sym("singles");
         shared.merge(r);
@@ -138,7 +142,7 @@ pub fn run(ctx: &RunCtx) -> i32 {
         let mut r = Report::new();
         for t in &tails {
             for (m, c, tid) in menu::header_menu(true) {
-                check_msg(&menu::lmsg(m, c, tid, t.clone()), &kk, &mut r);
+                check_msg(&menu::lmsg(m, c, tid, t.clone()), &kk, 1, &mut r);
             }
         }
         shared.merge(r);
@@ -154,7 +158,7 @@ pub fn run(ctx: &RunCtx) -> i32 {
                 let mut attrs = vec![menu_v[i].clone(), menu_v[j].clone()];
                 attrs.extend(t.clone());
                 let lm = menu::lmsg(1, 0, [0x21; 12], attrs);
-                check_msg(&lm, &kk, &mut r);
+                check_msg(&lm, &kk, 1, &mut r);
                 if i == 3 && j == 4 {
                     r.sample(json!({"msg": cu::show_msg(&lm), "faults": "every bit, and 4 byte substitutions at every byte, of the whole message"}));
                 }
@@ -163,6 +167,47 @@ pub fn run(ctx: &RunCtx) -> i32 {
         r.sym("pairs");
         shared.merge(r);
     });
+    // every message length: one DATA blob of 0..=300 bytes (thorough 0..=1100) + FINGERPRINT, full walk
+    (0..=if thorough { 1100usize } else { 300 }).into_par_iter().for_each(|n| {
+        let kk = Keyed { spec: &spec, subject: &subj, raw: &raw };
+        let mut r = Report::new();
+        let b: Vec<u8> = (0..n).map(|x| (x * 5 + 1) as u8).collect();
+        check_msg(&menu::lmsg(1, 1, [0x45; 12], vec![L::Data(b), L::Fp]), &kk, 1, &mut r);
+        r.sym("length-sweep");
+        shared.merge(r);
+    });
+    // deep messages (menu::deep_msgs) x 2 tails, sparse walk (first 24 bytes, last 40 bytes, every 251st byte; quick tier: one alternating tail)
+    menu::deep_msgs(thorough).par_chunks(16).for_each(|ch| {
+        let kk = Keyed { spec: &spec, subject: &subj, raw: &raw };
+        let mut r = Report::new();
+        for (ix, lm) in ch.iter().enumerate() {
+            for (ti, t) in [vec![L::Fp], vec![L::Mi, L::Sha, L::Fp]].into_iter().enumerate() {
+                if !thorough && ix % 2 != ti {
+                    continue; // quick tier: alternating tail
+                }
+                let mut m = lm.clone();
+                m.attrs.extend(t);
+                check_msg(&m, &kk, 251, &mut r);
+            }
+        }
+        r.sym("deep-messages");
+        shared.merge(r);
+    });
+    // offset family: FINGERPRINT (alone / after MI) behind a filler at every body offset of menu::offset_points up to the
+    // 65,532-byte maximum, sparse walk
+    {
+        let xs: Vec<Vec<L>> = vec![vec![]];
+        let tails = vec![vec![L::Fp], vec![L::Mi, L::Fp]];
+        menu::offset_msgs(thorough, &xs, &tails, [0x74; 12]).par_chunks(8).for_each(|ch| {
+            let kk = Keyed { spec: &spec, subject: &subj, raw: &raw };
+            let mut r = Report::new();
+            for lm in ch {
+                check_msg(lm, &kk, 509, &mut r);
+            }
+            r.sym("offset-family");
+            shared.merge(r);
+        });
+    }
     let mut rep = shared.into_inner();
     crate::e3::c10_client::run(ctx, &mut rep);
     rep.outcome("fingerprint-accepted-iff-untouched");
@@ -172,9 +217,9 @@ pub fn run(ctx: &RunCtx) -> i32 {
         rep,
         Finish {
             level: "fault_enumeration",
-            rule: format!("codec: every single-attribute message of the full menu and the empty body x 4 tails containing FINGERPRINT (and x 10 headers for the empty body), every ordered pair over the {}-entry (<=64-byte values) menu (quick: one rotating tail per pair): wire bytes == reference (independent CRC-32 XOR 0x5354554e over the RFC input), accepted untouched, and after every single-bit fault at every bit and every byte := ^FF / +1 / 00 / FF at every byte never accepted as carrying a valid FINGERPRINT (acceptance = validating decoder returns it OR get_input_text+validate is true). client: see coverage.client. Non-trivial = message whose whole walk passed", menu_v.len()),
+            rule: format!("codec: every single-attribute message of the full menu and the empty body x 4 tails containing FINGERPRINT (and x 10 headers for the empty body), every ordered pair over the {}-entry (<=64-byte values) menu (quick: one rotating tail per pair): wire bytes == reference (independent CRC-32 XOR 0x5354554e over the RFC input), accepted untouched, and after every single-bit fault at every bit and every byte := ^FF / +1 / 00 / FF at every byte never accepted as carrying a valid FINGERPRINT (acceptance = validating decoder returns it OR get_input_text+validate is true). Plus one DATA blob of every length 0..=300 (thorough 1100) + FINGERPRINT with the full walk, and the deep messages of C01 x 2 tails with a sparse walk (first 24 bytes, last 40 bytes, every 251st byte; quick tier: one alternating tail). Plus the offset family (FINGERPRINT alone / after MI behind a filler at every 4-aligned body offset 0..=4200 (thorough 16,400), around multiples of 4096 (1024), every offset 65,300..=65,524; walk at the first 24, last 40 and every 509th byte). client: see coverage.client. Non-trivial = message whose whole walk passed", menu_v.len()),
             assumptions: vec!["CRC-32 detects all single-bit and single-byte errors by construction; the walk checks the plumbing (input range, length adjustment, XOR constant, attribute lookup)".into()],
-            required_symbols: vec!["accepted-untampered", "fault-walks", "singles", "pairs", "client-packet-ends-in-valid-fingerprint", "client-rejected-bad-or-missing-fingerprint", "client-completed-by-good-reply", "misplaced", "one-bit-wrong", "absent"],
+            required_symbols: vec!["accepted-untampered", "fault-walks", "singles", "pairs", "length-sweep", "deep-messages", "offset-family", "client-packet-ends-in-valid-fingerprint", "client-rejected-bad-or-missing-fingerprint", "client-completed-by-good-reply", "misplaced", "one-bit-wrong", "absent"],
             min_outcomes: 2,
             exhaustive: true,
             bounds: json!({"menu": menu_v.len(), "tails": 4}),
